@@ -93,6 +93,42 @@ mut('C11', 'handler_output_handover_removed', S, """			n.mu.Lock()
 			n.mu.Unlock()
 """, "")
 
+# ---- C14 graph admission
+mut('C14', 'hascycle_degree_gt_one', G, """		if degree > 0 {
+			return true""", """		if degree > 1 {
+			return true""")
+mut('C14', 'setup_ignores_unknown_dependency', G, """			depStep, err := g.findStep(dep)
+			if err != nil {
+				return err
+			}""", """			depStep, err := g.findStep(dep)
+			if err != nil {
+				continue
+			}""")
+mut('C14', 'addedge_direction_swapped', G, """			g.addEdge(depStep, node)""", """			g.addEdge(node, depStep)""")
+mut('C14', 'findstep_matches_prefix', G, """		if n.data.Step.Name == name {
+			return n, nil""", """		if len(n.data.Step.Name) >= len(name) && n.data.Step.Name[:len(name)] == name {
+			return n, nil""")
+mut('C14', 'cycle_check_skipped', G, """	if g.hasCycle() {
+		return errCycleDetected
+	}
+
+	return nil
+}
+
+func (g *ExecutionGraph) hasCycle() bool {""", """	if len(g.nodes) > 8 && g.hasCycle() {
+		return errCycleDetected
+	}
+
+	return nil
+}
+
+func (g *ExecutionGraph) hasCycle() bool {""")
+mut('C14', 'addedge_only_backward', G, """	g.from[from.id] = append(g.from[from.id], to.id)
+	g.to[to.id] = append(g.to[to.id], from.id)""", """	if from.id != to.id {
+		g.from[from.id] = append(g.from[from.id], to.id)
+	}
+	g.to[to.id] = append(g.to[to.id], from.id)""")
+
 # ---- worker W(n)
 mut('C03', 'retry_guard_off_by_one', S, """node.data.Step.RetryPolicy.Limit > node.getRetryCount():""", """node.data.Step.RetryPolicy.Limit >= node.getRetryCount():""")
 mut('C03', 'inc_retry_count_removed', S, """							// retry
